@@ -768,10 +768,24 @@ TOUR_EVENTS = (
     [["rx", "4;1;1;0;0;\u00e5\u00e4\u00f6 \u65e5\u672c \U0001f600\n"], ["rx", "4;1;2;0;0;\n"]],
     [["send", [5, 1, 1, 0, 2, "1"], True], ["flag", 5, "reboot", True], ["rx", "5;255;3;0;22;1\n"], ["rx", "5;255;3;0;22;2\n"]],
     [["flag", 5, "reboot", True], ["send", [5, 1, 1, 0, 2, "1"], True], ["rx", "5;1;1;0;2;0\n"], ["rx", "5;255;3;0;32;1\n"]],
+    # a sleeping node is asked to present itself (it reported for a child it never presented) with a command parked for it, wakes, reports again
+    [["send", [5, 1, 1, 0, 2, "1"], True], ["rx", "5;9;1;0;0;1\n"], ["rx", "5;255;3;0;22;1\n"], ["rx", "5;255;3;0;32;1\n"], ["rx", "5;9;1;0;0;2\n"], ["rx", "5;255;3;0;22;2\n"]],
+    # what the application sent with the ack flag comes back as the node's echo: a received line like any other
+    [["send", [4, 1, 1, 1, 0, "9"], True], ["rx", "4;1;1;1;0;9\n"], ["rx", "4;1;1;1;0;9\n"]], [["send", [4, 255, 3, 1, 18, ""], True], ["rx", "4;255;3;1;18;\n"]],
+    # the application sends internal commands (reboot, heartbeat request, presentation request) to a sleeper with a command parked, and to a node it asked to present itself
+    [["send", [5, 1, 1, 0, 2, "1"], True], ["send", [5, 255, 3, 0, 13, ""], True], ["rx", "5;255;3;0;22;1\n"], ["rx", "5;255;3;0;32;1\n"]],
+    [["rx", "9;1;1;0;0;1\n"], ["send", [9, 255, 3, 0, 13, ""], True], ["send", [9, 255, 3, 0, 18, ""], True], ["rx", "9;1;1;0;0;2\n"]],
+    [["rx", "4;9;1;0;0;1\n"], ["send", [4, 255, 3, 0, 13, ""], True], ["send", [4, 1, 1, 0, 0, "x"], True], ["rx", "4;9;1;0;0;2\n"]],
+    # hours and days pass on the process clock between the send and the wake
+    [["send", [5, 1, 1, 0, 2, "1"], True], ["tick", 4000], ["rx", "5;255;3;0;22;1\n"], ["rx", "5;255;3;0;32;1\n"]],
+    [["send", [5, 1, 1, 0, 2, "1"], True], ["tick", 86400 * 3], ["rx", "5;9;1;0;0;1\n"], ["tick", 86400 * 40], ["rx", "5;255;3;0;22;1\n"], ["rx", "5;255;3;0;32;1\n"], ["rx", "5;9;1;0;0;2\n"]],
+    # three sends to one key with the value changed and changed back, then the wake
+    [["send", [5, 1, 1, 0, 2, "1"], True], ["send", [5, 1, 1, 0, 2, "0"], True], ["send", [5, 1, 1, 0, 2, "1"], True], ["rx", "5;255;3;0;22;1\n"], ["rx", "5;255;3;0;32;1\n"], ["rx", "5;255;3;0;22;2\n"]],
 )
 ENV_DIMS = (
     {}, {"debug_log": True}, {"warnings": "error"}, {"via": "mqtt"}, {"via": "stream"}, {"bystander": True}, {"persistence_file": "scratch"}, {"persistence_file": "unwritable"},
     {"ctx": "thread"}, {"tasks": True}, {"listen_mode": "persistent"}, {"via": "mqtt", "listen_mode": "persistent", "debug_log": True},
+    {"eager_tasks": True}, {"eager_tasks": True, "tasks": True},
 )
 
 
@@ -783,15 +797,40 @@ def env_sweep(versions=(None, "1.5", "2.1", "2.2"), dims=ENV_DIMS):
                 yield {"version": version, "metric": True, "registry": TOUR_REGISTRY, "ops": [list(op) for op in events], **dim}
 
 
+def switch_sweep_cases(versions=(None, "1.5", "2.0", "2.2")):
+    """Hidden switches: one message of every internal type (payload 0 and 1, from the gateway and from a known node) arrives first,
+    then the whole tour of events in one history - no earlier message may change how the later ones are treated."""
+    tour = [list(op) for events in TOUR_EVENTS for op in events if not any(o[0] in ("session", "install") for o in events)]
+    for version in versions:
+        for mtype in range(0, 34):
+            if mtype == 2:
+                continue
+            for sender in (0, 4):
+                for payload in ("0", "1"):
+                    yield {"kind": "envsweep", "version": version, "metric": True, "registry": TOUR_REGISTRY, "switch": f"{sender}:{mtype}:{payload}",
+                           "ops": [["rx", f"{sender};255;3;0;{mtype};{payload}\n"]] + [list(op) for op in tour]}
+
+
 def env_sweep_cases(versions=(None, "1.5", "2.1", "2.2"), dims=ENV_DIMS):
     for hist in env_sweep(versions, dims):
         yield {"kind": "envsweep", **hist}
 
 
+def all_sweep_cases():
+    yield from env_sweep_cases()
+    yield from switch_sweep_cases()
+
+
+def opt_sweep_cases(tier: str):
+    """What the pass under `python -O` runs for the driven properties: the tour under the plain environment and a few others."""
+    yield from env_sweep_cases(dims=({}, {"tasks": True}, {"persistence_file": "scratch"}, {"via": "mqtt"}))
+
+
 def run_env_case(case: dict, aspects: frozenset[str], hooks: dict | None = None) -> Outcome:
     """Run one case of the environment sweep for a property that owns `aspects`."""
-    bad, info = env.run(run_history(case, aspects, hooks=hooks))
-    dims = tuple(f"{k}={case[k]}" for k in ("via", "debug_log", "warnings", "bystander", "persistence_file", "ctx", "tasks", "listen_mode") if case.get(k))
+    with env.eager_tasks(bool(case.get("eager_tasks"))):
+        bad, info = env.run(run_history(case, aspects, hooks=hooks))
+    dims = tuple(f"{k}={case[k]}" for k in ("via", "debug_log", "warnings", "bystander", "persistence_file", "ctx", "tasks", "listen_mode", "eager_tasks", "python_O") if case.get(k))
     classes = ("envsweep",) + (dims or ("env=plain",)) + tuple(sorted(info["classes"]))
     if bad is not None:
         bad.classes = classes
